@@ -224,6 +224,27 @@ def _run(case):
                 classes.add("tc-set")
             if k == len(orig) and orig:
                 classes.add("all-fit")
+    # every block size: "when padding is requested the final length, TSIG included, is a multiple of
+    # the block size" -- block sizes are swept inside the case so that the alignment coincidences
+    # (unpadded length already a multiple; OPT present or not; TSIG name compressible or not) occur
+    for blk in (2, 3, 4, 5, 7, 8, 16, 31, 32, 64):
+        sub = dict(case, pad=blk)
+        mm, key2 = _build(sub)
+        evals += 1
+        try:
+            w = mm.to_wire(max_size=65535, want_shuffle=False)
+        except dns.exception.TooBig:
+            continue
+        if len(w) % blk != 0:
+            raise Violation("padding", f"block sweep: pad={blk} but final length {len(w)} (TSIG {'present' if key2 else 'absent'}) is not a multiple", "pad-length" + (":tsig" if key2 else ""))
+        try:
+            p = dns.message.from_wire(w, origin=origin, keyring=key2)
+        except dns.exception.DNSException as e:
+            raise Violation("padding", f"block sweep: pad={blk}: padded output does not parse/validate: {type(e).__name__}: {e}", "pad-unparseable:" + type(e).__name__)
+        if _flatten(p) != orig:
+            raise Violation("padding", f"block sweep: pad={blk}: padded message differs from the original", "pad-content")
+        if key2 is not None:
+            classes.add("block-sweep+tsig")
     # monotonicity
     best = {}
     for eff, k in included_by_limit:
@@ -277,6 +298,6 @@ def parts(tier):
         Part("limits", run, strategy=cases(sweep=(tier == "thorough")),
              n={"quick": 480, "thorough": 16 * 300},
              require={"partial-inclusion": 80, "tc-set": 80, "dropped-only-additional": 20, "padded": 50,
-                      "padded+tsig": 15, "tsig": 50, "toobig": 80, "limit<512": 50},
+                      "padded+tsig": 15, "block-sweep+tsig": 100, "tsig": 50, "toobig": 80, "limit<512": 50},
              shards={"quick": 16, "thorough": 16}),
     ]
